@@ -64,11 +64,11 @@ var profiles = map[string]Profile{
 	"expiryauto": {Name: "expiryauto", Names: allNames, Callers: allCallers, Declared: [][]string{{"a"}, {"a", "x"}}, Auto: true,
 		AllowLookup: []bool{true}, Expiry: []int64{30000, 30000, 0}, CacheKinds: []string{"undeclared", "zerostamp", "empty"},
 		Deadlines: []int64{0}, LookupDl: []int64{0}, AdvanceMs: []int64{10000, 30000, 31000, 1000}, ParkPct: 30,
-		Weights: map[string]int{"respond": 35, "fail": 4, "svc": 8, "advance": 18, "refresh": 8, "tick": 10, "read": 10, "handle": 6, "lookup": 8, "unpark": 6, "restart": 8, "close": 4}, Steps: 60},
+		Weights: map[string]int{"respond": 35, "fail": 4, "svc": 8, "advance": 18, "refresh": 8, "tick": 10, "read": 10, "handle": 6, "lookup": 8, "unpark": 6, "restart": 8, "close": 4, "updfail": 4}, Steps: 60},
 	"expiry": {Name: "expiry", Names: allNames, Callers: allCallers, Declared: [][]string{{"a"}, {"a"}, {"a", "x"}, {"b"}},
 		AllowLookup: []bool{true}, Expiry: []int64{0, 30000, 30000}, CacheKinds: []string{"undeclared", "zerostamp", "empty"},
 		Deadlines: []int64{0}, LookupDl: []int64{0}, AdvanceMs: []int64{10000, 30000, 31000, 1000},
-		Weights: map[string]int{"respond": 35, "fail": 4, "svc": 8, "advance": 18, "refresh": 16, "read": 8, "handle": 6, "lookup": 5, "restart": 5}, Steps: 60},
+		Weights: map[string]int{"respond": 35, "fail": 4, "svc": 8, "advance": 18, "refresh": 16, "read": 8, "handle": 6, "lookup": 5, "restart": 5, "updfail": 4}, Steps: 60},
 }
 
 // TestStoreRandom records random histories of the real store (one synctest bubble each).
